@@ -560,6 +560,9 @@ func propC07(j *Job) {
 	}
 	runCases(j, cases, func(spec *xferSpec) func(m *Sim, x *Exec, r *xferResult) { return prFinal(spec, true) })
 	for _, mode := range modes {
+		j.Explore(fmt.Sprintf("FR/%s", mode.Name), fwdAcrossResetScenario(withBase(mode.A, 228, 0xFFFFFFF9, 4000), withBase(mode.B, 228, 50, 4000)), Budget{}, nil)
+	}
+	for _, mode := range modes {
 		j.Explore(fmt.Sprintf("FB/%s", mode.Name), fwdBacklogScenario(withBase(mode.A, 228, 0xFFFFFFF9, 4000), withBase(mode.B, 228, 50, 4000)), Budget{}, nil)
 	}
 }
@@ -785,6 +788,155 @@ func fwdBacklogScenario(a, b epCfg) *Scenario {
 			m.CloseBoth()
 			m.Join(acc)
 			m.Join(ts...)
+		},
+		Final: func(m *Sim, x *Exec) { generalVerdicts(m, x, false) },
+	}
+}
+
+// fwdAcrossResetScenario: the last message of a stream's first incarnation is abandoned; the
+// skip reaches the peer but every SACK is lost for a while, so the sender still holds the
+// abandoned chunk when the stream has been closed in both directions and opened again.  The
+// first message of the new incarnation is abandoned too.  The skip announced then speaks for
+// the new incarnation only: what is written on it afterwards is delivered.
+func fwdAcrossResetScenario(a, b epCfg) *Scenario {
+	return &Scenario{
+		Name:    "fwd-across-reset",
+		Horizon: 300 * time.Second,
+		Body: func(m *Sim) {
+			if !m.Connect(a, b) {
+				m.Failf("connect", "handshake failed: %v %v", m.Err[0], m.Err[1])
+				m.closeFailedTransports()
+				m.CloseBoth()
+				return
+			}
+			A, B := m.As[0], m.As[1]
+			loseSacks, loseData := false, 0
+			m.W.killFn = func(p *wpkt) bool {
+				if p.dec == nil {
+					return false
+				}
+				if p.from == 1 && loseSacks {
+					only := true
+					for _, c := range p.dec.Chunks {
+						if c.Typ != wSACK {
+							only = false
+						}
+					}
+					return only
+				}
+				if p.from == 0 && loseData > 0 {
+					for _, c := range p.dec.Chunks {
+						if c.Typ == wDATA || c.Typ == wIDATA {
+							loseData--
+							return true
+						}
+					}
+				}
+				return false
+			}
+			open := func() (*Stream, *Stream) {
+				sa, err1 := A.OpenStream(1, PayloadTypeWebRTCBinary)
+				sb, err2 := B.OpenStream(1, PayloadTypeWebRTCBinary)
+				if err1 != nil || err2 != nil {
+					m.Failf("fwd.base", "OpenStream: %v %v", err1, err2)
+					return nil, nil
+				}
+				m.streamsSeen = append(m.streamsSeen, sa, sb)
+				sa.SetReliabilityParams(false, ReliabilityTypeRexmit, 0)
+				return sa, sb
+			}
+			type rd struct {
+				got []string
+				eof bool
+			}
+			read := func(name string, s *Stream, r *rd) *vsched.Thread {
+				return m.Go(name, func() {
+					buf := make([]byte, 2000)
+					for {
+						n, _, err := s.ReadSCTP(buf)
+						if err != nil {
+							m.mu.Lock()
+							r.eof = true
+							m.mu.Unlock()
+							return
+						}
+						m.mu.Lock()
+						r.got = append(r.got, string(buf[:n]))
+						m.mu.Unlock()
+					}
+				})
+			}
+			sa, sb := open()
+			if sa == nil {
+				m.CloseBoth()
+				return
+			}
+			var rb1, ra1 rd
+			t1, t2 := read("readB.1", sb, &rb1), read("readA.1", sa, &ra1)
+			for i := 0; i < 3; i++ {
+				_, _ = sa.WriteSCTP(payload(1, i, 30+i), PayloadTypeWebRTCBinary)
+			}
+			m.Sleep(2 * time.Second)
+			// the fourth message is lost and abandoned; from now on no SACK gets through
+			loseSacks, loseData = true, 1
+			_, _ = sa.WriteSCTP(payload(1, 3, 33), PayloadTypeWebRTCBinary)
+			m.Sleep(5 * time.Second)
+			_ = sa.Close()
+			if !m.WaitUntil("eof-at-B", 60*time.Second, func() bool { m.mu.Lock(); defer m.mu.Unlock(); return rb1.eof }) {
+				m.Failf("fwd.base", "B never saw the end of the first incarnation")
+			}
+			_ = sb.Close()
+			if !m.WaitUntil("eof-at-A", 60*time.Second, func() bool { m.mu.Lock(); defer m.mu.Unlock(); return ra1.eof }) {
+				m.Failf("fwd.base", "A never saw the end of the first incarnation")
+			}
+			m.WaitUntil("unregistered", 60*time.Second, func() bool {
+				_, inA := A.streams[1]
+				_, inB := B.streams[1]
+				return !inA && !inB && len(A.reconfigs) == 0 && len(B.reconfigs) == 0
+			})
+			m.Join(t1, t2)
+			// second incarnation: its first message is lost and abandoned as well
+			sa2, sb2 := open()
+			if sa2 == nil {
+				m.CloseBoth()
+				return
+			}
+			var rb2, ra2 rd
+			t3, t4 := read("readB.2", sb2, &rb2), read("readA.2", sa2, &ra2)
+			held := A.inflightQueue.size()
+			loseData = 1
+			_, _ = sa2.WriteSCTP(payload(1, 10, 40), PayloadTypeWebRTCBinary)
+			m.Sleep(5 * time.Second)
+			loseSacks = false
+			sa2.SetReliabilityParams(false, ReliabilityTypeReliable, 0)
+			var want []string
+			for i := 1; i <= 3; i++ {
+				d := payload(1, 10+i, 40+i)
+				_, _ = sa2.WriteSCTP(d, PayloadTypeWebRTCBinary)
+				want = append(want, string(d))
+			}
+			ok := m.WaitUntil("delivered", 60*time.Second, func() bool {
+				m.mu.Lock()
+				defer m.mu.Unlock()
+				n := 0
+				for _, g := range rb2.got {
+					for _, w := range want {
+						if g == w {
+							n++
+						}
+					}
+				}
+				return n == len(want)
+			})
+			if !ok {
+				m.mu.Lock()
+				n := len(rb2.got)
+				m.mu.Unlock()
+				m.Failf("skip.blocks-later", "stream 1 was re-opened while the sender still held %d unacknowledged chunk(s) of its first incarnation (SACKs lost); after the first message of the new incarnation was abandoned, the three reliable messages written next are not delivered within 60 s (%d messages read on the new incarnation, receiver waits for SSN/MID %d/%d, sender has %d bytes buffered)", held, n, sb2.reassemblyQueue.nextSSN, sb2.reassemblyQueue.nextMID, bufAmt(A))
+			}
+			m.Observe("held=%d delivered=%v", held, ok)
+			m.CloseBoth()
+			m.Join(t3, t4)
 		},
 		Final: func(m *Sim, x *Exec) { generalVerdicts(m, x, false) },
 	}
